@@ -161,6 +161,26 @@ def discharge_vac(obls, specs, ip, seed):
     discharge(obls, None, None, tier='quick', seed=seed, timeout=5)
 
 
+def native_bounded(runner, name, clause, code, bound, func):
+    """bounded stand-in (never counted as proved): run-time check of a contract clause on the REAL function over an
+    enumerated domain, in a fresh CPython process.  `code` must print one JSON object {cases, failures:[{input, got, want}]}."""
+    env = dict(os.environ)
+    env['PYTHONPATH'] = os.path.join(runner.repo.root, 'src')
+    try:
+        p = subprocess.run([NATIVE_PY, '-c', code], capture_output=True, text=True, timeout=1200, env=env)
+        res = json.loads(p.stdout.strip().splitlines()[-1])
+    except Exception as e:
+        return {'undecided': (name, 'bounded stand-in could not run: %r' % (e,))}
+    out = {'bounded': {'function': func, 'clause': clause, 'bound': bound, 'cases': res['cases'], 'failures': len(res['failures'])},
+           'samples': [{'bounded-stand-in': name, 'cases': res['cases'], 'bound': bound}]}
+    if res['failures']:
+        f = res['failures'][0]
+        rp = runner.write_replay('bounded:' + name, clause, 'bounded', None, None, json.dumps(f), extra={'failing_input': f})
+        out['violation'] = Violation('bounded:' + name, clause, func, inputs=f.get('input'), replay=rp, reproduced=True,
+                                     detail='got %r, contract wants %r' % (f.get('got'), f.get('want')), kind='bounded')
+    return out
+
+
 class Runner:
     def __init__(self, pid, build, tier='quick', seed=0):
         self.pid, self.build, self.tier, self.seed = pid, build, tier, seed
@@ -170,6 +190,9 @@ class Runner:
         self.violations = []
         self.undecided = []
         self.log = []
+        self.refute_budget_s = 150 if tier == 'quick' else 900
+        self.discharge_budget_s = 420 if tier == 'quick' else 3600
+        self.generate_budget_s = 300 if tier == 'quick' else 1800
 
     def new_interp(self):
         ip = Interp(self.repo, {}, self.specs)
@@ -193,11 +216,31 @@ class Runner:
             ip.contracts[c.qual] = c
         self.base_contracts = dict(ip.contracts)
         func_summaries = []
+        t_start = time.time()
+        # property-specific machinery first (bounded native stand-ins, model cross-checks): a function for which a
+        # stand-in already replayed a counterexample on the real code is not put through the prover again
+        custom_results = []
+        for c in chk.customs:
+            custom_results.extend(c(ip, self))
+        for r in custom_results:
+            if r.get('violation'):
+                self.violations.append(r['violation'])
+            if r.get('undecided'):
+                self.undecided.append(r['undecided'])
+            if r.get('bounded'):
+                chk.bounded.append(r['bounded'])
+        broken_funcs = set(v.func for v in self.violations if v.reproduced)
         # lemmas
         if chk.lemmas:
             prove_lemmas(ip, self.specs, set(chk.lemmas))
-        for u in chk.units:
+        for ui, u in enumerate(chk.units):
             n0 = len(ip.obls)
+            ip.cur_unit = ui
+            if u.contract.qual in broken_funcs:
+                continue
+            if time.time() - t_start > self.generate_budget_s:
+                self.undecided.append((u.contract.qual, 'not analysed: time budget of the check used up'))
+                continue
             try:
                 s = verify_function(ip, u.contract)
                 s['obligations'] = len(ip.obls) - n0
@@ -215,7 +258,7 @@ class Runner:
             self.undecided.append(('lemma:' + lem, 'lemma instance used but the lemma is not proved in this check'))
         # vacuity: every function's precondition must be satisfiable and a normal exit reachable
         vac = self.vacuity(ip, chk)
-        solver_wall = discharge(obls, self.specs, ip, tier=self.tier, seed=self.seed)
+        solver_wall = discharge(obls, self.specs, ip, tier=self.tier, seed=self.seed, budget_s=self.discharge_budget_s)
         # ground formulas
         ground_results = []
         for g in chk.grounds:
@@ -226,32 +269,36 @@ class Runner:
                 continue
             for inst, ok, detail in res:
                 ground_results.append((g, inst, ok, detail))
-        # property-specific machinery
-        custom_results = []
-        for c in chk.customs:
-            custom_results.extend(c(ip, self))
         # ---- classify
         discharged = [o for o in obls if o.result['verdict'] == 'unsat']
         refuted = [o for o in obls if o.result['verdict'] == 'sat']
         unknown = [o for o in obls if o.result['verdict'] not in ('sat', 'unsat')]
-        units_by_func = {u.contract.qual: u for u in chk.units}
         handled_funcs = set()
+        confirmed_funcs = set(broken_funcs)
+        t_refute0 = time.time()
         for o in refuted:
-            u = units_by_func.get(o.func)
+            u = chk.units[o.extra['unit']] if o.extra.get('unit') is not None else None
             if o.func.startswith('lemma:'):
                 self.undecided.append((o.name, 'lemma refuted: the lemma library is wrong, not the code'))
                 continue
             if u is None:
                 self.undecided.append((o.name, 'refuted obligation of a function without unit'))
                 continue
-            if o.func in handled_funcs:
+            if (o.func, o.extra.get('unit')) in handled_funcs:
+                continue
+            if o.func in confirmed_funcs:
+                continue        # one replayed counterexample per function is enough (other case splits are not searched)
+            if time.time() - t_refute0 > self.refute_budget_s:
+                self.undecided.append((o.name, 'refuted by the solver; counterexample search skipped (time budget of %ds used)' % self.refute_budget_s))
                 continue
             has_loops = bool(u.contract.loops) or bool(u.contract.cuts)
             if o.kind in ('ensures', 'raises', 'precondition') and not has_loops:
                 self.report_refuted(o, u, o.result['model'], direct=True)
             else:
-                handled_funcs.add(o.func)
-                self.bounded_refute(u, [x for x in refuted if x.func == o.func])
+                handled_funcs.add((o.func, o.extra.get('unit')))
+                self.bounded_refute(u, [x for x in refuted if x.func == o.func and x.extra.get('unit') == o.extra.get('unit')])
+            if any(v.func == o.func and v.reproduced for v in self.violations):
+                confirmed_funcs.add(o.func)
         for o in unknown:
             self.undecided.append((o.name, 'solvers: ' + ', '.join('%s=%s' % (a['solver'], a['result']) for a in o.result['attempts'])))
         for g, inst, ok, detail in ground_results:
@@ -259,11 +306,6 @@ class Runner:
                 name = 'ground:%s[%s]' % (g.name, inst)
                 rp = self.write_replay(name, g.clause, 'ground', None, None, detail)
                 self.violations.append(Violation(name, g.clause, 'ground:' + g.name, inputs={'instance': inst}, replay=rp, reproduced=True, detail=detail, kind='ground'))
-        for r in custom_results:
-            if r.get('violation'):
-                self.violations.append(r['violation'])
-            if r.get('undecided'):
-                self.undecided.append(r['undecided'])
         # ---- known findings
         known, fixed = load_known(self.pid)
         unlisted, listed = [], []
